@@ -46,6 +46,9 @@ func (r c01Resp) spec(now time.Time) RS {
 	case "invalid":
 		s.RawDate = "yesterday-ish"
 		date = respAt
+	case "year 1700": // a valid HTTP-date three centuries back: the apparent age exceeds what a Duration can hold
+		s.RawDate = "Fri, 01 Jan 1700 00:00:00 GMT"
+		date = time.Date(1700, 1, 1, 0, 0, 0, 0, time.UTC)
 	}
 	switch r.expires {
 	case "":
@@ -78,7 +81,7 @@ var (
 	c01MaxAgeQ = []string{"", "0", "10", "x", "2147483648", "9223372037", "18446744074"}
 	c01Expires = []string{"", "10", "0s", "-10", "0"}
 	c01LM      = []string{"", "-100", "100"}
-	c01Date    = []string{"now", "-5", "+5", "absent", "invalid"}
+	c01Date    = []string{"now", "-5", "+5", "absent", "invalid", "year 1700"}
 	c01Age     = []string{"", "0", "5", "15", "x", "9223372037", "5, 7", "9223372036854775808", "99999999999999999999"}
 	c01Status  = []int{200, 404, 302}
 	c01ReqDir  = []string{"", "max-age=5", "max-age=100", "min-fresh=5", "max-stale", "max-stale=0", "max-stale=5", "only-if-cached"}
